@@ -133,6 +133,20 @@ def r_helpers(ctx, model):
                   found=f"x = {xn}; y = {yn}",
                   explanation=f"method {method!r}: node abscissae and ordinates are not the logarithms of volumes and frequencies "
                               f"under the same flip/subsampling (points would be paired wrongly)", key=f"{method}.nodes")
+        if it.kind == "lsq":
+            # exactness on polynomial data of the chosen order needs the full column rank of the Vandermonde matrix in ln V, whose
+            # columns are nearly collinear over a +-10 % volume range (singular values down to ~1e-9 of the largest at order 5):
+            # a rank cut-off above machine precision silently lowers the order of the fit
+            rc = it.opts.get("rcond")
+            try:
+                rc_ok = rc is None or float(as_sym(rc)) <= 1e-14
+            except (TypeError, ValueError, AnalysisError):
+                rc_ok = False
+            ctx.check(rc_ok, f"{method}: least squares keeps the full column rank (rcond at machine precision)", w,
+                      expected="rcond omitted, None, -1 or <= 1e-14", found=f"rcond = {rc}",
+                      explanation=f"method {method!r}: numpy.linalg.lstsq is given rcond = {rc}; singular directions of the ln V Vandermonde "
+                                  f"matrix below that cut-off are dropped, so data that are polynomial in ln V of the chosen order (and, at "
+                                  f"orders 4-5, even pure power laws) are no longer reproduced exactly", key=f"{method}.rcond")
         # R11.8 extrapolation
         ctx.begin_rule("R11.8", RULE_TEXT["R11.8"])
         noext = [(k, str(x)) for (i2, k, x, ext) in reg.evals if i2 is it and not ext]
